@@ -79,6 +79,13 @@ def gen_base(rng, want):
                     nm = base_name          # collides with the first one once punctuation is mapped to '_'
                 a["argv"] = [a["flag"], a["argv"][1].replace(a["name"] + "=", nm + "=", 1)]
                 a["name"] = nm
+    if rng.random() < want.get("unknown_name_p", 0.0):
+        # an adapter that happens to be called like the file for reads without adapter
+        for side in ([sc.ads1] if rng.random() < 0.6 else [sc.ads1, sc.ads2]):
+            if side:
+                a = side[rng.randrange(len(side))]
+                a["argv"] = [a["flag"], a["argv"][1].replace(a["name"] + "=", "unknown=", 1)]
+                a["name"] = "unknown"
     sc.times = 1 if sc.pair_adapters else rng.choice([1, 1, 1, 2])
     sc.mods = []
     if rng.random() < 0.15:
@@ -337,7 +344,7 @@ def demux_fate(sc, r1, r2):
         return "demux:unknown"
     n1 = r1["adapter"] if r1["trimmed"] else "unknown"
     n2 = r2["adapter"] if r2["trimmed"] else "unknown"
-    if opts.get("discard_untrimmed") and ("unknown" in (n1, n2)):
+    if opts.get("discard_untrimmed") and not (r1["trimmed"] and r2["trimmed"]):
         return "discard_untrimmed"
     return f"demux:{n1}/{n2}"
 
